@@ -30,56 +30,52 @@ def run(chk):
     rng = random.Random(chk.seed * 31 + 2)
     nb = dict(quick=14, thorough=150)[chk.tier]
     base = [a.split(' ', 3)[3] for a, _ in model_gen(GEN, 0, chk.seed + 11, 0, nb)]
-    lines = []
+    # candidate mutations are enumerated as small tuples and only the chosen ones are written out (a line
+    # carries the whole history before the mutated datagram)
+    hq = []
     for h in base:
         f = h.split(' ')
-        quads = [f[i:i + 4] for i in range(0, len(f) - 3, 4)]
-        # choose up to 3 datagrams of the history to sweep; the ones before them stay (templates)
+        hq.append([f[i:i + 4] for i in range(0, len(f) - 3, 4)])
+
+    def materialise(hi, k, pos, v, width):
+        quads = hq[hi]
+        d = bytes.fromhex(quads[k][3][1:])[:1500]
+        m = d[:pos] + v.to_bytes(width, 'big') + d[pos + width:]
+        q = [x for qq in quads[:k] for x in qq] + quads[k][:3] + ['=' + m.hex()]
+        return 'alloc flow none ' + ' '.join(q)
+
+    def candidates(hi, k, lo, hi_pos):
+        d = bytes.fromhex(hq[hi][k][3][1:])[:1500]
+        out = []
+        for pos in range(lo, min(hi_pos, len(d) - 1), 2):
+            for v in HOSTILE:
+                for width in (2, 4):
+                    if pos + width > len(d) or (width == 4 and pos % 4) or v >= 2 ** (8 * width):
+                        continue
+                    out.append((hi, k, pos, v, width))
+        return out
+
+    body = []
+    for hi, quads in enumerate(hq):
+        # up to 3 datagrams of the history are swept completely; the ones before them stay (templates)
         for k in rng.sample(range(len(quads)), min(3, len(quads))):
-            d = bytes.fromhex(quads[k][3][1:])
-            if len(d) > 1500:
-                d = d[:1500]
-            for pos in range(0, len(d) - 1, 2):
-                for v in HOSTILE:
-                    for width in (2, 4):
-                        if pos + width > len(d) or (width == 4 and pos % 4):
-                            continue
-                        if v >= 2 ** (8 * width):
-                            continue
-                        m = d[:pos] + v.to_bytes(width, 'big') + d[pos + width:]
-                        q = [x for qq in quads[:k] for x in qq] + quads[k][:3] + ['=' + m.hex()]
-                        lines.append('alloc flow none ' + ' '.join(q))
-    # header sweep, never subsampled: in EVERY datagram of every base history, each aligned word of the
-    # first 40 bytes (version, record / sample / set counts, lengths of the first set or sample) takes
-    # every hostile value
-    head = []
-    for h in base:
-        f = h.split(' ')
-        quads = [f[i:i + 4] for i in range(0, len(f) - 3, 4)]
+            body += candidates(hi, k, 0, 1500)
+    cap = dict(quick=6000, thorough=120000)[chk.tier]
+    if len(body) > cap:
+        body = rng.sample(body, cap)
+    # header sweep: in EVERY datagram of every base history, each aligned word of the first 40 bytes (version,
+    # record / sample / set counts, lengths of the first set or sample) takes every hostile value; sampled per
+    # protocol so that every (protocol, position, value) combination stays represented
+    byproto = {}
+    for hi, quads in enumerate(hq):
         for k in range(len(quads)):
-            d = bytes.fromhex(quads[k][3][1:])
-            for pos in range(0, min(40, len(d) - 1), 2):
-                for v in HOSTILE:
-                    for width in (2, 4):
-                        if pos + width > len(d) or (width == 4 and pos % 4) or v >= 2 ** (8 * width):
-                            continue
-                        m = d[:pos] + v.to_bytes(width, 'big') + d[pos + width:]
-                        q = [x for qq in quads[:k] for x in qq] + quads[k][:3] + ['=' + m.hex()]
-                        head.append('alloc flow none ' + ' '.join(q))
-    if chk.tier == 'quick' and len(head) > 6000:
-        # keep every (protocol, position, value) combination: sample per datagram, not per line
-        keep, seen = [], {}
-        for l in head:
-            dg = l.rsplit(' ', 1)[1]
-            key = (dg[1:5], )          # protocol/version half-word
-            seen.setdefault(key, []).append(l)
-        for key, ls in seen.items():
-            keep += ls if len(ls) <= 2500 else rng.sample(ls, 2500)
-        head = keep
-    if chk.tier == 'quick' and len(lines) > 6000:
-        lines = rng.sample(lines, 6000)
+            byproto.setdefault(quads[k][3][1:5], []).extend(candidates(hi, k, 0, 40))
+    head = []
+    pcap = dict(quick=2500, thorough=30000)[chk.tier]
+    for key, cs in byproto.items():
+        head += cs if len(cs) <= pcap else rng.sample(cs, pcap)
     chk.count('header sweep', len(head))
-    lines = head + lines
+    lines = [materialise(*c) for c in head + body]
     impl = impl_run(chk.harness, lines, timeout=120.0)
     chk.evals += len(lines)
     chk.count('count-field sweep', len(lines))
